@@ -106,6 +106,7 @@ fn main() {
             use skv_verif::engine_crash::{crash_prop, Judge};
             run_model(vec![(crash_prop("C03", Judge::Prefix, 5, false), 60, 1500), (crash_prop("C03", Judge::Prefix, 0, false), 8, 300), (crash_prop("C03", Judge::Prefix, 5, true), 12, 300)], tier, replay)
         }
+        "C15" => run_model(vec![(skv_verif::engine_fault::c15(4, false), 300, 6000), (skv_verif::engine_fault::c15(0, false), 20, 600), (skv_verif::engine_fault::c15(9, true), 32, 800)], tier, replay),
         "C06" => run_model(vec![(props::c06(), 6000, 120000)], tier, replay),
         "C07" => {
             use skv_verif::engine_crash::{crash_prop, Judge};
